@@ -4,6 +4,7 @@ import (
 	"crypto/tls"
 	"encoding/binary"
 	"fmt"
+	mangosws "go.nanomsg.org/mangos/v3/transport/ws"
 	"io"
 	"math/rand"
 	"net"
@@ -652,8 +653,9 @@ func TestWireReal(t *testing.T) {
 		}
 	}
 	// --- WebSocket mapping against an independent implementation (gorilla/websocket)
-	for _, wss := range []bool{false, true} {
+	for wi, wss := range []bool{false, true, false, false} {
 		idx++
+		wi := wi
 		r := rec.New()
 		status, detail := "ok", ""
 		func() {
@@ -674,6 +676,14 @@ func TestWireReal(t *testing.T) {
 			l, err := s.NewListener(scheme+"://127.0.0.1:0/sp", lo)
 			if err != nil {
 				panic(err)
+			}
+			// the mapping is the same whatever the listener's own options are
+			switch wi {
+			case 2:
+				_ = l.SetOption(mangosws.OptionWebSocketCheckOrigin, false)
+			case 3:
+				_ = l.SetOption(mangosws.OptionWebSocketCheckOrigin, true)
+				_ = l.SetOption(mangos.OptionMaxRecvSize, 100000)
 			}
 			if err = l.Listen(); err != nil {
 				panic(err)
@@ -717,7 +727,7 @@ func TestWireReal(t *testing.T) {
 				r.Emit("wsframe", "binary", mt == websocket.BinaryMessage, "len", len(data), "d", digest(data), "want", digest(b), "r", err)
 			}
 		}()
-		out.Add(fmt.Sprintf("wirereal-ws-%v", wss), rec.Ev{"kind": "ws", "ipc": false, "self": 16, "maxrx": 0, "stream": []int{}, "closes": false},
+		out.Add(fmt.Sprintf("wirereal-ws-%v-%d", wss, wi), rec.Ev{"kind": "ws", "ipc": false, "self": 16, "maxrx": 0, "stream": []int{}, "closes": false},
 			fmt.Sprint("ws ", wss), sim.Result{Lines: r.Lines(), Status: status, Detail: detail})
 	}
 	// mangos as WebSocket client against a gorilla server: the offered subprotocol
